@@ -1,1 +1,466 @@
-use crate::Ctx; pub fn run(_cx: &mut Ctx) {}
+//! Domain OBS: the observe `Subject` registry and `create_notification` – C14, C15.
+//!   OBS run <op;op;...>    -> full state dump after the last op
+//!   OBS trace <op;op;...>  -> dump after every op, joined by " | "
+//!   OBS notif <mid> <tok> <seq> <payload> <con>  -> dump | encoding
+//! ops: reg ep pathhex tokhex | dereg ep pathhex tokhex | chg pathhex mid con | ack ep mid | limit n
+//! dump: L<limit> then for each known path (sorted): <pathhex>{<seq>;ep:tok:unacked:mid,...} or <pathhex>{-}
+use crate::pkt::{dump as pdump, show_bytes};
+use crate::{guarded, hex, unhex, Ctx, Rng};
+use coap_lite::{create_notification, CoapRequest, Packet, Subject};
+use std::collections::{BTreeMap, BTreeSet, VecDeque};
+
+#[derive(Clone, Debug, PartialEq, Eq, PartialOrd, Ord)]
+pub enum Op {
+    Reg(u8, String, Vec<u8>),
+    Dereg(u8, String, Vec<u8>),
+    Chg(String, u16, bool),
+    Ack(u8, u16),
+    Limit(u8),
+}
+
+impl Op {
+    fn token(&self) -> String {
+        match self {
+            Op::Reg(e, p, t) => format!("reg {} {} {}", e, hex(p.as_bytes()), hex(t)),
+            Op::Dereg(e, p, t) => format!("dereg {} {} {}", e, hex(p.as_bytes()), hex(t)),
+            Op::Chg(p, m, c) => format!("chg {} {} {}", hex(p.as_bytes()), m, *c as u8),
+            Op::Ack(e, m) => format!("ack {} {}", e, m),
+            Op::Limit(l) => format!("limit {}", l),
+        }
+    }
+    fn paths(&self) -> Option<String> {
+        match self {
+            Op::Reg(_, p, _) | Op::Dereg(_, p, _) => {
+                // the registry key is get_path() of the request
+                let mut r: CoapRequest<u8> = CoapRequest::new();
+                r.set_path(p);
+                Some(r.get_path())
+            }
+            Op::Chg(p, _, _) => Some(p.clone()),
+            _ => None,
+        }
+    }
+}
+
+fn request(ep: u8, path: &str, tok: &[u8], mid: u16) -> CoapRequest<u8> {
+    let mut p = Packet::new();
+    p.set_token(tok.to_vec());
+    p.header.message_id = mid;
+    let mut r: CoapRequest<u8> = CoapRequest::from_packet(p, ep);
+    r.set_path(path);
+    r
+}
+
+fn apply(s: &mut Subject<u8>, op: &Op) {
+    match op {
+        Op::Reg(e, p, t) => s.register(&request(*e, p, t, 0)),
+        Op::Dereg(e, p, t) => s.deregister(&request(*e, p, t, 0)),
+        Op::Chg(p, m, c) => s.resource_changed(p, *m, *c),
+        Op::Ack(e, m) => s.acknowledge(&request(*e, "", &[], *m)),
+        Op::Limit(l) => s.set_unacknowledged_limit(*l),
+    }
+}
+
+fn dump(s: &Subject<u8>, limit: u8, paths: &BTreeSet<String>, with_seq: bool) -> String {
+    let mut out = format!("L{}", limit);
+    for p in paths {
+        out.push(' ');
+        out.push_str(&hex(p.as_bytes()));
+        match s.get_resource(p) {
+            None => out.push_str("{-}"),
+            Some(r) => {
+                out.push('{');
+                if with_seq {
+                    out.push_str(&r.sequence.to_string());
+                }
+                out.push(';');
+                let obs: Vec<String> = r
+                    .observers
+                    .iter()
+                    .map(|o| {
+                        format!(
+                            "{}:{}:{}:{}",
+                            o.endpoint,
+                            hex(&o.token),
+                            o.verif_unacked(),
+                            o.verif_pending_mid().map(|m| m.to_string()).unwrap_or("n".into())
+                        )
+                    })
+                    .collect();
+                out.push_str(&obs.join(","));
+                out.push('}');
+            }
+        }
+    }
+    out
+}
+
+// ---------------------------------------------------------------- reference (per-observer automaton)
+#[derive(Clone, Default)]
+struct RefRes {
+    seq: u64,
+    obs: Vec<(u8, Vec<u8>, u32, Option<u16>)>,
+}
+#[derive(Clone)]
+struct RefSubject {
+    limit: u32,
+    res: BTreeMap<String, RefRes>,
+}
+
+impl RefSubject {
+    fn apply(&mut self, op: &Op) {
+        match op {
+            Op::Reg(e, _, t) => {
+                let key = op.paths().unwrap();
+                let r = self.res.entry(key).or_default();
+                if let Some(o) = r.obs.iter_mut().find(|o| o.0 == *e) {
+                    *o = (*e, t.clone(), 0, None);
+                } else {
+                    r.obs.push((*e, t.clone(), 0, None));
+                }
+            }
+            Op::Dereg(e, _, t) => {
+                let key = op.paths().unwrap();
+                if let Some(r) = self.res.get_mut(&key) {
+                    if let Some(i) = r.obs.iter().position(|o| o.0 == *e && o.1 == *t) {
+                        r.obs.remove(i);
+                    }
+                }
+            }
+            Op::Chg(p, m, c) => {
+                let limit = self.limit;
+                if let Some(r) = self.res.get_mut(p) {
+                    r.seq += 1;
+                    for o in r.obs.iter_mut() {
+                        o.3 = Some(*m);
+                        if *c {
+                            o.2 += 1;
+                        }
+                    }
+                    r.obs.retain(|o| o.2 <= limit);
+                }
+            }
+            Op::Ack(e, m) => {
+                for r in self.res.values_mut() {
+                    if let Some(o) = r.obs.iter_mut().find(|o| o.0 == *e && o.3 == Some(*m)) {
+                        o.2 = 0;
+                        o.3 = None;
+                    }
+                }
+            }
+            Op::Limit(l) => self.limit = *l as u32,
+        }
+    }
+    fn dump(&self, paths: &BTreeSet<String>) -> String {
+        let mut out = format!("L{}", self.limit);
+        for p in paths {
+            out.push(' ');
+            out.push_str(&hex(p.as_bytes()));
+            match self.res.get(p) {
+                None => out.push_str("{-}"),
+                Some(r) => {
+                    out.push('{');
+                    out.push_str(&r.seq.to_string());
+                    out.push(';');
+                    let obs: Vec<String> = r.obs.iter().map(|o| format!("{}:{}:{}:{}", o.0, hex(&o.1), o.2, o.3.map(|m| m.to_string()).unwrap_or("n".into()))).collect();
+                    out.push_str(&obs.join(","));
+                    out.push('}');
+                }
+            }
+        }
+        out
+    }
+}
+
+fn pathlist(paths: &BTreeSet<String>) -> String {
+    if paths.is_empty() {
+        "_".to_string()
+    } else {
+        paths.iter().map(|p| hex(p.as_bytes())).collect::<Vec<_>>().join(",")
+    }
+}
+
+fn limit_after(ops: &[Op]) -> u8 {
+    let mut l = 10u8;
+    for o in ops {
+        if let Op::Limit(x) = o {
+            l = *x
+        }
+    }
+    l
+}
+
+fn all_paths(ops: &[Op], extra: &[String]) -> BTreeSet<String> {
+    let mut s: BTreeSet<String> = extra.iter().cloned().collect();
+    for o in ops {
+        if let Some(p) = o.paths() {
+            s.insert(p);
+        }
+    }
+    s
+}
+
+/// run a whole history; returns (dump-with-seq after each op) or None on panic
+fn run_real(ops: &[Op], paths: &BTreeSet<String>) -> Option<Vec<String>> {
+    guarded(|| {
+        let mut s: Subject<u8> = Subject::default();
+        let mut outs = vec![];
+        for (i, o) in ops.iter().enumerate() {
+            apply(&mut s, o);
+            outs.push(dump(&s, limit_after(&ops[..=i]), paths, true));
+        }
+        outs
+    })
+}
+
+fn check_oracle(cx: &mut Ctx, line: &str, ops: &[Op], paths: &BTreeSet<String>, real: &Option<Vec<String>>) {
+    let mut r = RefSubject { limit: 10, res: BTreeMap::new() };
+    match real {
+        None => {
+            cx.oracle_fail("C15", line, "observe registry operation panicked");
+        }
+        Some(outs) => {
+            for (i, o) in ops.iter().enumerate() {
+                r.apply(o);
+                let want = r.dump(paths);
+                if outs[i] != want {
+                    let prop = match o {
+                        Op::Reg(..) | Op::Dereg(..) => "C14",
+                        _ => "C15",
+                    };
+                    cx.oracle_fail(prop, line, &format!("after op {} ({}): registry is {} but per-observer reference gives {}", i + 1, o.token(), outs[i], want));
+                    // C14 also covers duplicates/frames whatever the op
+                    if prop == "C15" && (outs[i].split(';').count() != want.split(';').count()) {
+                        cx.oracle_fail("C14", line, &format!("after op {}: observer lists differ", i + 1));
+                    }
+                    break;
+                }
+            }
+        }
+    }
+}
+
+fn case_run(cx: &mut Ctx, ops: &[Op], extra_paths: &[String]) {
+    let paths = all_paths(ops, extra_paths);
+    let line = format!("OBS run {} {}", pathlist(&paths), ops.iter().map(|o| o.token()).collect::<Vec<_>>().join(";"));
+    let real = run_real(ops, &paths);
+    match &real {
+        None => cx.case(&line, "panic"),
+        Some(outs) => cx.case(&line, outs.last().map(|s| s.as_str()).unwrap_or("L10")),
+    }
+    cx.nontrivial(&line);
+    check_oracle(cx, &line, ops, &paths, &real);
+}
+
+fn case_trace(cx: &mut Ctx, ops: &[Op]) {
+    let paths = all_paths(ops, &[]);
+    let line = format!("OBS trace {} {}", pathlist(&paths), ops.iter().map(|o| o.token()).collect::<Vec<_>>().join(";"));
+    let real = run_real(ops, &paths);
+    match &real {
+        None => cx.case(&line, "panic"),
+        Some(outs) => cx.case(&line, &outs.join(" | ")),
+    }
+    cx.nontrivial(&line);
+    check_oracle(cx, &line, ops, &paths, &real);
+}
+
+fn case_notif(cx: &mut Ctx, mid: u16, tok: &[u8], seq: u32, payload: &[u8], con: bool) {
+    let line = format!("OBS notif {} {} {} {} {}", mid, hex(tok), seq, hex(payload), con as u8);
+    let r = guarded(|| {
+        let p = create_notification(mid, tok.to_vec(), seq, payload.to_vec(), con);
+        let e = p.to_bytes_unlimited();
+        (p, e)
+    });
+    match &r {
+        None => {
+            cx.case(&line, "panic");
+            if tok.len() <= 8 {
+                cx.oracle_fail("C15", &line, "create_notification panicked");
+            }
+        }
+        Some((p, e)) => {
+            let es = match e {
+                Ok(b) => show_bytes(&Some(Ok(b.clone()))),
+                Err(_) => "err".to_string(),
+            };
+            cx.case(&line, &format!("{} | {}", pdump(p), es));
+            cx.nontrivial(&line);
+            // oracle: version 1, requested type, 2.05, mid, token, payload, Observe = minimal BE of seq; survives encode/decode
+            let mut be = vec![];
+            let mut v = seq;
+            while v > 0 {
+                be.push((v & 0xff) as u8);
+                v >>= 8;
+            }
+            be.reverse();
+            let mut opts = vec![];
+            for (n, l) in p.options() {
+                for x in l.iter() {
+                    opts.push((*n, x.clone()));
+                }
+            }
+            let vtt = crate::tbl::header_first_byte(&p.header);
+            let good = vtt == (0x40 | (if con { 0 } else { 1 }) << 4 | tok.len() as u8)
+                && u8::from(p.header.code) == 0x45
+                && p.header.message_id == mid
+                && p.get_token() == tok
+                && p.payload == payload
+                && opts == vec![(6u16, be.clone())]
+                && p.get_observe_value() == Some(Ok(seq));
+            if !good && tok.len() <= 8 {
+                cx.oracle_fail("C15", &line, &format!("notification does not carry the given type/id/token/payload/sequence: {}", pdump(p)));
+            }
+            if let Ok(b) = e {
+                match Packet::from_bytes(b) {
+                    Ok(q) if q.get_observe_value() == Some(Ok(seq)) && q.get_token() == tok && q.payload == payload => {}
+                    _ => {
+                        if tok.len() <= 8 {
+                            cx.oracle_fail("C15", &line, "notification does not survive encode/decode")
+                        }
+                    }
+                }
+            }
+        }
+    }
+}
+
+pub fn run(cx: &mut Ctx) {
+    let thorough = cx.tier_thorough;
+    let mut rng = Rng(cx.seed ^ 0x4f4253);
+
+    // ---- corpus: D7 witness (limit 255, 256 unacknowledged confirmable rounds)
+    {
+        let mut ops = vec![Op::Limit(255), Op::Reg(1, "p".into(), vec![1])];
+        for i in 0..300u16 {
+            ops.push(Op::Chg("p".into(), i, true));
+        }
+        case_trace(cx, &ops);
+    }
+
+    // ---- 1. breadth-first exploration of the small alphabet: every transition out of every
+    //         distinct state reachable within the depth bound
+    let eps = [1u8, 2];
+    let toks: [Vec<u8>; 2] = [vec![0xa], vec![0xb]];
+    let paths = ["p".to_string(), "q".to_string()];
+    let mids = [10u16, 11];
+    let mut alphabet: Vec<Op> = vec![];
+    for &e in &eps {
+        for t in &toks {
+            for p in &paths {
+                alphabet.push(Op::Reg(e, p.clone(), t.clone()));
+                alphabet.push(Op::Dereg(e, p.clone(), t.clone()));
+            }
+        }
+        for &m in &mids {
+            alphabet.push(Op::Ack(e, m));
+        }
+    }
+    for p in &paths {
+        for &m in &mids {
+            alphabet.push(Op::Chg(p.clone(), m, true));
+            alphabet.push(Op::Chg(p.clone(), m, false));
+        }
+    }
+    alphabet.push(Op::Limit(0));
+    alphabet.push(Op::Limit(1));
+    alphabet.push(Op::Limit(2));
+    let depth = if thorough { 7 } else { 5 };
+    let pathset: BTreeSet<String> = paths.iter().cloned().collect();
+    let mut seen: BTreeMap<String, Vec<Op>> = BTreeMap::new();
+    let mut queue: VecDeque<Vec<Op>> = VecDeque::new();
+    seen.insert("init".into(), vec![]);
+    queue.push_back(vec![]);
+    let mut transitions = 0u64;
+    let max_states = if thorough { 60000 } else { 6000 };
+    while let Some(w) = queue.pop_front() {
+        if w.len() >= depth {
+            continue;
+        }
+        for op in &alphabet {
+            let mut ops = w.clone();
+            ops.push(op.clone());
+            case_run(cx, &ops, &paths);
+            transitions += 1;
+            // dedup key: state without absolute sequence numbers
+            let key = guarded(|| {
+                let mut s: Subject<u8> = Subject::default();
+                for o in &ops {
+                    apply(&mut s, o);
+                }
+                dump(&s, limit_after(&ops), &pathset, false)
+            })
+            .unwrap_or_else(|| format!("panic-{}", transitions));
+            if !seen.contains_key(&key) && seen.len() < max_states {
+                seen.insert(key, ops.clone());
+                queue.push_back(ops);
+            }
+        }
+    }
+    cx.stat_n("bfs_states", seen.len() as u64);
+    cx.stat_n("bfs_transitions", transitions);
+    cx.exhaustive.push(format!("every one of {} operations out of every distinct registry state reachable within depth {} (2 endpoints x 2 tokens x 2 paths x 2 mids x CON/NON x limits 0,1,2)", alphabet.len(), depth));
+
+    // ---- 2. random histories of length 200 over larger alphabets
+    let nh = if thorough { 1500 } else { 250 };
+    let bigpaths = ["a", "a/b", "/a", "sensors/temp", "", "x"];
+    for _ in 0..nh {
+        let mut ops = vec![];
+        if rng.chance(1, 2) {
+            ops.push(Op::Limit(*rng.pick(&[0u8, 1, 2, 3, 10, 254, 255])));
+        }
+        for _ in 0..200 {
+            let e = rng.below(8) as u8;
+            let p = rng.pick(&bigpaths).to_string();
+            let tl = rng.below(9) as usize;
+            let t = if rng.chance(1, 2) { vec![e] } else { rng.bytes(tl) };
+            let m = rng.below(6) as u16;
+            ops.push(match rng.below(12) {
+                0 | 1 | 2 => Op::Reg(e, p, t),
+                3 => Op::Dereg(e, p, t),
+                4 | 5 | 6 | 7 => {
+                    let key = Op::Reg(0, p, vec![]).paths().unwrap();
+                    Op::Chg(key, m, rng.chance(2, 3))
+                }
+                8 | 9 | 10 => Op::Ack(e, m),
+                _ => Op::Limit(*rng.pick(&[0u8, 1, 2, 5, 255])),
+            });
+        }
+        case_trace(cx, &ops);
+    }
+
+    // ---- 3. directed long histories at limits 10, 254, 255 (and 0, 1)
+    for &lim in &[0u8, 1, 10, 254, 255] {
+        for con_every in [1u32, 2] {
+            let mut ops = vec![Op::Limit(lim), Op::Reg(1, "r".into(), vec![1]), Op::Reg(2, "r".into(), vec![2])];
+            for i in 0..600u32 {
+                ops.push(Op::Chg("r".into(), (i % 65536) as u16, i % con_every == 0));
+                if i == 300 {
+                    ops.push(Op::Ack(2, 300));
+                }
+            }
+            case_trace(cx, &ops);
+        }
+    }
+
+    // ---- 4. notification builder
+    let seqs: Vec<u32> = vec![0, 1, 255, 256, 257, 65535, 65536, 65537, 0xff_ffff, 0x100_0000, 0x100_0001, u32::MAX - 1, u32::MAX];
+    for tl in 0..=9usize {
+        for &s in &seqs {
+            for con in [false, true] {
+                let tok = rng.bytes(tl);
+                let pl = rng.below(20) as usize;
+                let payload = rng.bytes(pl);
+                case_notif(cx, rng.below(65536) as u16, &tok, s, &payload, con);
+            }
+        }
+    }
+    for _ in 0..2000 {
+        let tl = rng.below(9) as usize;
+        let tok = rng.bytes(tl);
+        let s = (rng.next() >> rng.below(64)) as u32;
+        let pl = rng.below(30) as usize;
+        let payload = rng.bytes(pl);
+        case_notif(cx, rng.below(65536) as u16, &tok, s, &payload, rng.chance(1, 2));
+    }
+    let _ = unhex("-");
+}
